@@ -444,6 +444,20 @@ def nonempty(ctx, cfg, fs):
             ms = sorted({st['rv']['variant'] for i, k, st in sm.stmts() if st['k'] == 'assign' and st['rv']['k'] == 'agg' and st['rv'].get('adt') == 'error::Message'})
             ok = 'Missing' not in ms
             ctx.ob('N.non-empty', 'render:Missing', ok, 'the empty Missing arm is dead: summarize_missing builds only %s' % ms, where=b.where(tb), cfg=cfg)
+            # .. and the replacement is unconditional: from the Missing edge of every switch on Message that comes before Doc::default() and can
+            # still reach the call of summarize_missing (after the pre-pass helper, if any, has been inlined), every way to Doc::default() passes
+            # that call.  Ways that leave a later switch on Message by an edge other than Missing are not ways of a Missing value (nothing
+            # reassigns it before the call) and are not followed; switches behind the call (drop elaboration) are not asked.
+            smc = {c.bb for c in b.calls() if c.is_(r'^error::summarize_missing$')}
+            pre = [s for s in sws if s is not sw and 'Missing' in s.edges and not b.dominates(dd[0].bb, s.b) and b.reaches(s.b, [dd[0].bb]) and b.reaches(s.b, smc)]
+            if not smc or not pre:
+                raise Broken('Message::render: expected a switch on Message before Doc::default() whose Missing arm calls summarize_missing')
+            other = [(s.b, t) for s in sws for v, t in s.edges.items() if v != 'Missing' and t != s.edges.get('Missing')]
+            for s in pre:
+                leak = dd[0].bb in reachable_edges(b, s.edges['Missing'], removed_edges=other, avoid=smc)
+                ctx.ob('N.non-empty', 'render:Missing:always-summarized', not leak,
+                       'the Missing arm of the switch before Doc::default() %s' % ('reaches summarize_missing on every path' if not leak else 'can reach Doc::default() without calling summarize_missing: Missing then arrives at the arm that writes nothing'),
+                       where=b.where(s.edges['Missing']), cfg=cfg)
             continue
         ctx.ob('N.non-empty', 'render:%s' % v, not silent,
                'arm %s %s' % (v, 'writes to the document on every path to Stderr' if not silent else 'can reach ParseFailure::Stderr without writing any text'),
